@@ -229,6 +229,19 @@ impl<R> ReaderCursor<R> {
             .as_ref()
             .map(|inner| inner.iter().map(|(offset, _)| *offset).collect())
     }
+
+    /// Verification hook: the in-block position (payload byte offset) of the cursor held at
+    /// each index level (root first) and of the current data block cursor.
+    #[allow(clippy::type_complexity)]
+    pub fn verif_positions(&self) -> (Option<Vec<Option<usize>>>, Option<Option<usize>>) {
+        let index = self
+            .index_block_cursor
+            .inner
+            .as_ref()
+            .map(|inner| inner.iter().map(|(_, cursor)| cursor.verif_current_offset()).collect());
+        let data = self.current_cursor.as_ref().map(|cursor| cursor.verif_current_offset());
+        (index, data)
+    }
 }
 
 impl<R> Deref for ReaderCursor<R> {
